@@ -167,7 +167,27 @@ fn seg_ending_at_boundary(ctx: &mut Ctx, buf: BufKind) -> Option<Vec<u8>> {
         BufKind::Vec => None,
         BufKind::Arr(n) => Some(n),
     };
-    let s: Vec<u8> = match rng.below(7) {
+    let s: Vec<u8> = match rng.below(8) {
+        7 => {
+            // a valid frame whose checksum ends in 0x1b (found by search): its last bytes look like the
+            // beginning of a start sequence
+            let n = cap.unwrap_or(12).min(12);
+            let mut p: Vec<u8> = (0..n).map(|_| rng.byte() | 0x20).collect();
+            let mut best = ref_encode(&p);
+            if n > 0 {
+                for v in 0..=255u8 {
+                    p[0] = v;
+                    let f = ref_encode(&p);
+                    if f[f.len() - 1] == 0x1b {
+                        best = f.clone();
+                        if f[f.len() - 2] == 0x1b {
+                            break;
+                        }
+                    }
+                }
+            }
+            best
+        }
         0 => {
             // valid frame whose payload ends in zeros (zeros withheld right up to the end)
             let mut p = payload::any_payload(rng);
